@@ -3,6 +3,7 @@ import ScVerif.C12.Registry
 import ScVerif.C12.Conc
 import ScVerif.C12.Forward
 import ScVerif.C12.NameDefault
+import ScVerif.C12.Lin
 /-!
 Driver handler for C12: parses one request line, runs the model, prints the canonical answer.
 
@@ -14,6 +15,7 @@ route <fb> <fac> <ops> <name> <method> <req> U <childout>           history, the
 route <fb> <fac> <ops> <name> <method> <req> S <childscript> <callerscript>   … a server-stream call
 conc  <fb> <fac> <reg0> <names> <sched>                  concurrent Gets, fine-grained schedule
 name  <default> <fields>                                 replaceEmptyNameField
+lin   <fb> <fac> <reg0> <progs> <sched>                  concurrent Add/Remove/Has/Get, macro schedule
 ```
 Factory kinds (shared with the Go harness): `none new err nil both pfx odd`; the fallback makes
 clients `2000+k`, the factory `1000+k` (k = number of earlier calls).
@@ -161,6 +163,25 @@ def showField (f : Field) : String :=
   | .str s => f.fname ++ ":" ++ (if f.isString then "S" else "X") ++ ":" ++ tilde s
   | .other k => f.fname ++ ":O:" ++ toString k
 
+/-- One *macro* step as the harness can force it: one atomic step, except that the fallback and the
+factory call of a Get run together (there is no yield point between them). -/
+def lmacro (cfg : Cfg) (c : LConf) (t : Nat) : LConf :=
+  let c1 := lstep cfg c t
+  match c1.ths[t]? with
+  | some ⟨_, .factory _, _, _⟩ => lstep cfg c1 t
+  | _ => c1
+
+def showLPC : LPC → String
+  | .idle => "idle"
+  | .notify _ _ => "callback"
+  | .fallback _ => "afterMiss"
+  | .factory _ => "factory"
+  | .insert _ _ => "beforeInsert"
+
+def showLThread (th : LThread) : String :=
+  (if th.results.isEmpty then "-" else ".".intercalate (th.results.map showRes)) ++ "@" ++ showLPC th.pc ++
+    (if th.prog.isEmpty then "" else "+" ++ toString th.prog.length)
+
 def handle? (toks : List String) : Option String :=
   match toks with
   | ["reg", fb, fac, ops] => do
@@ -197,6 +218,13 @@ def handle? (toks : List String) : Option String :=
     let c0 := Conf.start reg0 0 0 (fun t => names.getD t "")
     let c := crun cfg c0 sched
     pure ("th=" ++ commaList ((List.range names.length).map fun t => showPC (c.th t).pc) ++ " " ++ showSt c.st)
+  | ["lin", fb, fac, reg0, progs, sched] => do
+    let cfg ← cfgOf fb fac
+    let reg0 ← parseReg? reg0
+    let progs ← (splitList progs "|").mapM parseOps?
+    let sched ← (splitList sched ",").mapM parseNat?
+    let c := sched.foldl (lmacro cfg) (LConf.start reg0 0 0 progs)
+    pure ("th=" ++ "|".intercalate (c.ths.map showLThread) ++ " " ++ showSt c.st)
   | ["name", dflt, fields] => do
     let fs ← (splitList fields ",").mapM parseField?
     pure (commaList ((replaceEmptyName (unTilde dflt) fs).map showField))
